@@ -9,6 +9,7 @@ import (
 	"math/rand"
 	"reflect"
 	"sort"
+	"sync"
 
 	"github.com/trustbloc/sidetree-go/pkg/document"
 	"github.com/trustbloc/sidetree-go/pkg/patch"
@@ -38,6 +39,11 @@ func toDoc(d M) document.Document {
 }
 
 func implApply(doc M, patches []interface{}) (res M, ok bool, panicked bool, intact bool) {
+	return implApplyWith(doccomposer.New(), doc, patches)
+}
+
+// implApplyWith: the same through a composer the caller holds (one composer serves many calls)
+func implApplyWith(composer *doccomposer.DocumentComposer, doc M, patches []interface{}) (res M, ok bool, panicked bool, intact bool) {
 	defer func() {
 		if r := recover(); r != nil {
 			res, ok, panicked = nil, false, true
@@ -53,7 +59,7 @@ func implApply(doc M, patches []interface{}) (res M, ok bool, panicked bool, int
 		ps = append(ps, pm)
 	}
 	before, beforeP := deepSnapshot(d), deepSnapshot(ps)
-	out, err := doccomposer.New().ApplyPatches(d, ps)
+	out, err := composer.ApplyPatches(d, ps)
 	intact = before == deepSnapshot(d) && beforeP == deepSnapshot(ps)
 	if err == nil && out != nil && len(d) > 0 && reflect.ValueOf(out).Pointer() == reflect.ValueOf(d).Pointer() {
 		intact = false
@@ -335,6 +341,56 @@ func genC10(seed int64, tier string) []caseOut {
 			}
 		}
 	}
+	// one composer used by several goroutines at once, each with a document and patches of its own:
+	// every call yields what it yields alone (a differing result is emitted as that call's result)
+	{
+		const workers, rounds = 8, 150
+		fr := rand.New(rand.NewSource(11))
+		shared := doccomposer.New()
+		type job struct {
+			doc     M
+			patches A
+			res     M
+			ok      bool
+		}
+		jobs := make([]*job, workers)
+		for k := range jobs {
+			ks := A{}
+			for j := 0; j <= k; j++ {
+				ks = append(ks, validKey(fr, fmt.Sprintf("w%dk%d", k, j)))
+			}
+			jobs[k] = &job{doc: M{"publicKey": ks, "note": fmt.Sprintf("worker-%d", k)},
+				patches: A{M{"action": "add-services", "services": A{validService(fr, fmt.Sprintf("w%ds", k))}},
+					M{"action": "remove-public-keys", "ids": A{fmt.Sprintf("w%dk0", k)}},
+					M{"action": "ietf-json-patch", "patches": A{M{"op": "add", "path": "/seen", "value": float64(k)}}}}}
+			jobs[k].res, jobs[k].ok, _, _ = implApplyWith(shared, jobs[k].doc, jobs[k].patches)
+		}
+		var wg sync.WaitGroup
+		for k := range jobs {
+			wg.Add(1)
+			go func(j *job) {
+				defer wg.Done()
+				want := deepSnapshot(j.res)
+				for i := 0; i < rounds; i++ {
+					res, ok, _, _ := implApplyWith(shared, j.doc, j.patches)
+					if ok != j.ok || deepSnapshot(res) != want {
+						j.res, j.ok = res, ok
+						return
+					}
+				}
+			}(jobs[k])
+		}
+		wg.Wait()
+		for k, j := range jobs {
+			h := sha256.Sum256([]byte(fmt.Sprint("concurrent", k)))
+			out = append(out, caseOut{
+				Coq:    fmt.Sprintf("(mk_c10 %s %s %s)", cObj(normJSON(j.doc).(map[string]interface{})), cJSON(normJSON(j.patches))[len("(JArr "):len(cJSON(normJSON(j.patches)))-1], coqOptObj(j.res, j.ok)),
+				Rec:    map[string]interface{}{"document": j.doc, "patches": j.patches, "impl_ok": j.ok, "impl_result": j.res},
+				Label:  "concurrent,one-composer-many-callers",
+				NonTri: fmt.Sprintf("%x", h[:8]),
+			})
+		}
+	}
 	for i := 0; i < n; i++ {
 		doc, g := randDoc(r, false)
 		label := "sequence"
@@ -435,6 +491,8 @@ func genC11(seed int64, tier string) []caseOut {
 					opsList = append(opsList,
 						A{M{"op": kind, "from": ptr, "path": "/backup"}},
 						A{M{"op": kind, "from": "/other", "path": ptr}},
+						// onto its own location (the library removes and sets: on an array element that is not a no-op)
+						A{M{"op": kind, "from": ptr, "path": ptr}},
 						// copy out of a protected member, then edit through the copy (node sharing)
 						A{M{"op": kind, "from": ptr, "path": "/backup"}, M{"op": "replace", "path": "/backup/0/type", "value": "Hijacked"}},
 						A{M{"op": kind, "from": ptr, "path": "/backup"}, M{"op": "remove", "path": "/backup/0"}})
@@ -592,6 +650,25 @@ func genC14(seed int64, tier string) []caseOut {
 				ks[0].(M)["id"] = randID(r, 50)
 				label += ",id-50"
 			}
+		}
+		if i < 4 && inClass {
+			// systematic: a key / service list that names an id twice (first and last entry, another in
+			// between): the document comes back with every entry, in order
+			k1, k2, k3 := validKey(r, "signing"), validKey(r, "other"), validKey(r, "signing")
+			k3["purposes"] = A{"keyAgreement"}
+			s1, s2, s3 := validService(r, "hub"), validService(r, "other"), validService(r, "hub")
+			s3["serviceEndpoint"] = "https://second.example/hub"
+			switch i {
+			case 0:
+				doc["publicKey"] = A{k1, k2, k3}
+			case 1:
+				doc["service"] = A{s1, s2, s3}
+			case 2:
+				doc["publicKey"], doc["service"] = A{k1, k3}, A{s1, s3}
+			case 3:
+				doc["publicKey"] = A{k2, k1, k3, validKey(r, "last")}
+			}
+			label = "doc:in-class,repeated-entry-id"
 		}
 		b, _ := json.Marshal(doc)
 		ps, err := patch.PatchesFromDocument(string(b))
